@@ -188,17 +188,36 @@ def run(prop, spec, tier, seed, t0):
     # a changed source pin (normalised text of a modelled file differs from the committed pin)
     # is not a failure, but the correspondence then uses the deep generators for this run
     gen_tier = tier
-    ops = list(gens.generate(prop, tier, seed))
+
+    def bounded(it, cap, limit, r):
+        """reservoir sample of at most `cap` items from the first `limit` items of `it`,
+        returned in generation order"""
+        import itertools
+        res, idx = [], []
+        for i, x in enumerate(itertools.islice(it, limit)):
+            if len(res) < cap:
+                res.append(x)
+                idx.append(i)
+            else:
+                j = r.randrange(i + 1)
+                if j < cap:
+                    res[j] = x
+                    idx[j] = i
+        order = sorted(range(len(res)), key=lambda k: idx[k])
+        return [res[k] for k in order]
+
+    import random as _random
+    if tier == "thorough":
+        # the deep streams can be tens of millions of ops: uniform sample of 2.5M of the first 15M,
+        # plus the complete quick stream (every targeted family)
+        ops = list(gens.generate(prop, "quick", seed)) + bounded(gens.generate(prop, "thorough", seed), 2500000, 15000000, _random.Random(seed))
+    else:
+        ops = list(gens.generate(prop, tier, seed))
     if tier == "quick" and ex.get("pins_changed"):
         # keep the complete quick stream (it contains every targeted family) and add a random
         # sample of the deep stream
-        import itertools, random as _random
         gen_tier = "quick+deep-sample"
-        deep = list(itertools.islice(gens.generate(prop, "thorough", seed + 7, budget=400000), 2500000))
-        r = _random.Random(seed)
-        if len(deep) > 500000:
-            deep = r.sample(deep, 500000)
-        ops = ops + deep
+        ops = ops + bounded(gens.generate(prop, "thorough", seed + 7, budget=400000), 500000, 4000000, _random.Random(seed))
     model = impl = None
     crashes = []
     real, corr, stats = [], [], dict(families={}, distinct_nontrivial=0, agreed=0, strategies={})
